@@ -9,12 +9,29 @@ Contract (from the property statement, nothing more), evaluated on the real solv
 Domain: directed graphs, non-negative integer capacities, source != sink (a source-sink cut must exist).
 Oracles (oracles/flow_exact.py): reference Edmonds-Karp on an explicit residual multigraph, self-certifying
 (feasible flow of value v + saturated cut of capacity v), cross-checked with brute force over all cuts for n <= 8.
+
+Beyond the small scope (round 2):
+  * re-open gadgets / path systems (8..40 nodes): networks in which shortest-augmenting-path order saturates an arc, a later
+    path takes the flow off again over the residual twin and a still later path needs the arc a second time (long detours
+    on both sides of the contested arc).  The evidence counts how often that pattern occurred in the reference run.
+  * size ladder (10..2100 nodes, up to ~6000 arcs): layered / bipartite-matching / sparse / path-system networks; the verdict
+    needs no brute force: the RETURNED flow is checked directly (capacity, conservation, no augmenting path in its residual
+    network = maximality certificate) and its value is compared with the reference Edmonds-Karp (own saturated cut).
+  * history mode: several max_flow calls inside one process on the SAME graph dict object with in-place edits between the
+    calls (capacity replaced, arc added / deleted, list rotated, key re-inserted, capacities swapped so that counts and
+    totals stay the same), repeated calls, changing source/sink; every call is judged against the graph as it is at that call.
+    The last call of every sequence is repeated in a fresh interpreter on an equal, newly built dict and must give the
+    identical Result (frame:result-independent-of-call-history).
 """
 from __future__ import annotations
 
 import itertools
+import json
+import os
 import random
 import signal
+import subprocess
+import sys
 
 from vf.core import Ctx, use_repo
 from vf.pool import pmap
@@ -22,6 +39,7 @@ from vf.pool import pmap
 LEVEL = "exploration"
 P = "C08/max_flow/"
 TIMEOUT_S = 5.0
+LADDER_TIMEOUT_S = 120.0  # networks with more than 40 nodes
 
 
 class _Timeout(Exception):
@@ -74,38 +92,40 @@ def build_graph(case):
     return g, lab
 
 
-def eval_case(case):
-    """Returns (list of (obligation, detail), info dict).  info: value, used_reverse, nontrivial."""
+def snapshot(g, back):
+    """The input as the function sees it: arcs (u, v, cap) in dict / list iteration order."""
+    return [(back[u], back[v[0]], v[1]) for u in g for v in g[u]]
+
+
+def judge_call(g, lab, back, n, s, t, brute=True, timeout=TIMEOUT_S):
+    """One max_flow call on the graph object g, judged against the arcs g holds right now.
+    Returns (list of (obligation, detail), info, result summary or None)."""
     from oracles.flow_exact import edmonds_karp, min_cut_brute, st_flow_defects
     from solvor.flow import max_flow
 
-    n, s, t = case["n"], case["s"], case["t"]
-    arcs = [tuple(a) for a in case["arcs"]]
-    value, _fl, closed, used_rev = edmonds_karp(n, arcs, s, t)
-    if n <= 8:
+    arcs = snapshot(g, back)
+    tr = {}
+    value, _fl, closed, used_rev = edmonds_karp(n, arcs, s, t, tr)
+    if brute and n <= 8:
         bv, _ = min_cut_brute(n, arcs, s, t)
         if bv != value:
-            raise AssertionError(f"oracles disagree: Edmonds-Karp {value}, brute-force min cut {bv} on {case}")
-    info = {"value": value, "used_reverse": used_rev}
-    g, lab = build_graph(case)
-    back = {}
-    for i, l in enumerate(lab):
-        back[l] = i
+            raise AssertionError(f"oracles disagree: Edmonds-Karp {value}, brute-force min cut {bv} on {(n, arcs, s, t)}")
+    info = {"value": value, "used_reverse": used_rev, "reopened": tr["reopened"], "augmentations": tr["augmentations"]}
     signal.signal(signal.SIGVTALRM, _on_alarm)  # CPU-time guard (machine load cannot fake a hang)
-    signal.setitimer(signal.ITIMER_VIRTUAL, TIMEOUT_S)
+    signal.setitimer(signal.ITIMER_VIRTUAL, timeout)
     try:
         res = max_flow(g, lab[s], lab[t])
     except _Timeout:
         info["timeout"] = True
-        return [], info
+        return [], info, None
     except Exception as e:  # noqa
-        return [(P + "ensures:returns", f"raised {type(e).__name__}: {e}")], info
+        return [(P + "ensures:returns", f"raised {type(e).__name__}: {e}")], info, None
     finally:
         signal.setitimer(signal.ITIMER_VIRTUAL, 0)
     out = []
     sol = res.solution
     if not isinstance(sol, dict):
-        return [(P + "ensures:returns", f"solution is {type(sol).__name__}, not a flow dictionary")], info
+        return [(P + "ensures:returns", f"solution is {type(sol).__name__}, not a flow dictionary")], info, None
     fl = {}
     for key, f in sol.items():
         if not (isinstance(key, tuple) and len(key) == 2 and key[0] in back and key[1] in back):
@@ -113,41 +133,151 @@ def eval_case(case):
             continue
         fl[(back[key[0]], back[key[1]])] = f
     bad, net_t, _net_s, augmenting = st_flow_defects(n, arcs, s, t, fl)
-    for b in bad:
+    for b in bad[:4]:
         ob = "ensures:conservation" if b.startswith("conservation") else "ensures:capacity"
         out.append((P + ob, b))
     if res.objective != net_t:
         out.append((P + "ensures:objective", f"objective {res.objective!r} but net inflow at the sink is {net_t}"))
     if res.objective != value:
-        out.append((P + "ensures:maximum", f"objective {res.objective!r}, minimum cut {value} (closed set {closed})"))
+        cs = closed if len(closed) <= 12 else f"{closed[:12]}... ({len(closed)} nodes)"
+        out.append((P + "ensures:maximum", f"objective {res.objective!r}, minimum cut {value} (closed set {cs})"))
     if not bad and augmenting:
         out.append((P + "ensures:no-augmenting-path",
                     f"sink still reachable in the residual network of the returned flow (value {net_t}, max {value})"))
+    summary = [res.objective, sorted([list(k), f] for k, f in fl.items())]
+    return out, info, summary
+
+
+def eval_case(case):
+    """Returns (list of (obligation, detail), info dict).  info: value, used_reverse, reopened, nontrivial."""
+    if case.get("kind") == "history":
+        return eval_history(case)
+    g, lab = build_graph(case)
+    back = {l: i for i, l in enumerate(lab)}
+    big = case["n"] > 40
+    out, info, _ = judge_call(g, lab, back, case["n"], case["s"], case["t"], timeout=LADDER_TIMEOUT_S if big else TIMEOUT_S)
     return out, info
 
 
+# ------------------------------------------------------------------------------------------------ history mode
+def apply_edit(g, lab, ed):
+    """In-place edits of the caller's graph dict (the object identity of the dict and of its lists is kept)."""
+    op = ed[0]
+    if op == "cap":  # replace the capacity of the i-th arc out of u
+        _, u, i, c = ed
+        old = g[lab[u]][i]
+        g[lab[u]][i] = (old[0], c) + tuple(old[2:])
+    elif op == "add":
+        _, u, v, c, form = ed
+        g.setdefault(lab[u], []).append((lab[v], c) if form == 2 else (lab[v], c, 1))
+    elif op == "del":
+        _, u, i = ed
+        del g[lab[u]][i]
+    elif op == "rot":  # same arcs, other adjacency order
+        _, u = ed
+        g[lab[u]].append(g[lab[u]].pop(0))
+    elif op == "rekey":  # same list object under the same key, moved to the end of the dict
+        _, u = ed
+        g[lab[u]] = g.pop(lab[u])
+    else:
+        raise ValueError(op)
+
+
+def eval_history(case, want_last=False):
+    """case: kind 'history', n, arcs, labels, form, isolated, steps [{"edits": [...], "s": s, "t": t}, ...].
+    One graph dict is built once and then only edited in place; max_flow is called after every step."""
+    g, lab = build_graph(case)
+    back = {l: i for i, l in enumerate(lab)}
+    out = []
+    info = {"value": 0, "used_reverse": False, "reopened": 0, "calls": 0, "augmentations": 0}
+    last = None
+    for k, step in enumerate(case["steps"]):
+        for ed in step["edits"]:
+            apply_edit(g, lab, ed)
+        o, i, summ = judge_call(g, lab, back, case["n"], step["s"], step["t"])
+        info["calls"] += 1
+        info["value"] = max(info["value"], i["value"])
+        info["used_reverse"] |= i["used_reverse"]
+        info["reopened"] += i["reopened"]
+        if i.get("timeout"):
+            info["timeout"] = True
+        why = "first call" if k == 0 else ("same call again" if not step["edits"] and (step["s"], step["t"]) ==
+                                           (case["steps"][k - 1]["s"], case["steps"][k - 1]["t"]) else
+                                           "after in-place edits " + json.dumps(step["edits"]) if step["edits"]
+                                           else "other source/sink on the unchanged object")
+        out += [(ob, f"call #{k + 1} ({why}) on the same dict object, graph now "
+                     f"{ {u: g[u] for u in list(g)[:12]} }, {lab[step['s']]!r}->{lab[step['t']]!r}: {d}") for ob, d in o]
+        last = {"graph": [[back[u], [[back[a[0]]] + list(a[1:]) for a in g[u]]] for u in g], "labels": case["labels"],
+                "n": case["n"], "s": step["s"], "t": step["t"], "result": summ}
+    if want_last:
+        return out, info, last
+    return out, info
+
+
+def fresh_eval(item):
+    """Run in a NEW interpreter: build an equal dict from scratch, one max_flow call, return the result summary."""
+    from solvor.flow import max_flow
+    lab = [mk_label(x) for x in item["labels"]]
+    back = {l: i for i, l in enumerate(lab)}
+    g = {lab[u]: [(lab[a[0]],) + tuple(a[1:]) for a in lst] for u, lst in item["graph"]}
+    res = max_flow(g, lab[item["s"]], lab[item["t"]])
+    try:
+        return [res.objective, sorted([[back[k[0]], back[k[1]]], f] for k, f in res.solution.items())]
+    except Exception as e:  # noqa
+        return ["unreadable", repr(e)]
+
+
+def fresh_process(items):
+    """items -> list of result summaries computed by `python -m checks.C08 --fresh` (new process, same tree)."""
+    if not items:
+        return []
+    env = dict(os.environ)
+    here = os.path.dirname(os.path.dirname(os.path.abspath(__file__)))
+    p = subprocess.run([sys.executable, "-m", "checks.C08", "--fresh"], input=json.dumps(items), capture_output=True,
+                       text=True, cwd=here, env=env, timeout=600)
+    if p.returncode != 0:
+        raise RuntimeError("fresh-process helper failed: " + p.stderr[-800:])
+    return json.loads(p.stdout)
+
+
 def case_key(case):
+    if case.get("kind") == "history":
+        return hash(json.dumps(case, sort_keys=True))
     return hash((case["n"], case["s"], case["t"], tuple(map(tuple, case["arcs"])), repr(case["labels"]),
                  case.get("form", 2), tuple(case.get("isolated", []))))
 
 
-def run_cases(cases):
-    """Worker body: list of cases -> (n_eval, nontrivial keys, violations, n_reverse, timeouts)."""
-    keys, viol, nrev, touts = [], [], 0, []
+def run_cases(cases, lasts=None):
+    """Worker body: list of cases -> (n_eval, nontrivial keys, violations, [n_reverse, n_reopened, n_calls], timeouts).
+    lasts: list that receives (case, last-call record) of history cases for the fresh-process comparison."""
+    keys, viol, touts = [], [], []
+    nrev = nreo = ncalls = 0
     per_ob = {}
     for case in cases:
-        out, info = eval_case(case)
+        if lasts is not None and case.get("kind") == "history":
+            out, info, last = eval_history(case, want_last=True)
+            if last["result"] is not None:
+                lasts.append((case, last))
+        else:
+            out, info = eval_case(case)
         if info.get("timeout"):
-            touts.append(case)
+            touts.append(case if case["n"] <= 40 else {"n": case["n"], "gen": case.get("gen")})
         if info["value"] >= 1:
             keys.append(case_key(case))
         if info["used_reverse"]:
             nrev += 1
+        if info["reopened"]:
+            nreo += 1
+        ncalls += info.get("calls", 1)
+        seen_here = set()
         for ob, detail in out:
+            if ob in seen_here:
+                continue
+            seen_here.add(ob)
             per_ob[ob] = per_ob.get(ob, 0) + 1
             if per_ob[ob] <= 3:
                 viol.append((ob, case, detail))
-    return len(cases), keys, viol, nrev, touts, per_ob
+    return len(cases), keys, viol, [nrev, nreo, ncalls], touts, per_ob
 
 
 # --------------------------------------------------------------------------------------------------- scopes
@@ -284,11 +414,267 @@ def degenerate_cases():
     return out
 
 
+# ------------------------------------------------------------------------- round 2: beyond the small scope
+BIG_CAPS = (1, 1, 1, 2, 3, 7, 2 ** 53 + 1)
+
+
+class _Net:
+    """Small builder: named nodes -> ids in order of creation, arcs in order of creation."""
+
+    def __init__(self):
+        self.n = 0
+        self.arcs = []
+
+    def node(self):
+        self.n += 1
+        return self.n - 1
+
+    def chain(self, a, b, inner, cap):
+        """a -> x1 -> ... -> x_inner -> b, every arc with capacity cap(); returns the inner nodes."""
+        xs = [self.node() for _ in range(inner)]
+        seq = [a] + xs + [b]
+        for u, v in zip(seq, seq[1:]):
+            self.arcs.append([u, v, cap()])
+        return xs
+
+
+def _reopen_gadget(net, rng, s, t, k):
+    """One contested arc u->w with a short route through it, two medium by-passes (into w, out of u) and two long detours
+    (into u, out of w).  With shortest augmenting paths the arc is filled by the short route; when the detours are long
+    enough the next path walks w->u backwards (cancels) and the last one needs u->w again."""
+    def cap():
+        r = rng.random()
+        return k if r < 0.8 else k * 2 if r < 0.9 else k + 1
+
+    u, w = net.node(), net.node()
+    a1, b1 = rng.choice((0, 0, 0, 1)), rng.choice((0, 0, 0, 1))
+    A, B = rng.choice((0, 1, 1, 1, 2, 3)), rng.choice((0, 1, 1, 1, 2, 3))
+    C, D = A + rng.choice((0, 1, 2, 2, 2, 3, 4)), B + rng.choice((0, 1, 2, 2, 2, 3, 4))
+    groups = [
+        lambda: net.chain(s, u, a1, cap), lambda: net.arcs.append([u, w, cap()]), lambda: net.chain(w, t, b1, cap),
+        lambda: net.chain(s, w, A, cap), lambda: net.chain(u, t, B, cap),
+        lambda: net.chain(s, u, C, cap), lambda: net.chain(w, t, D, cap),
+    ]
+    if rng.random() < 0.4:
+        rng.shuffle(groups)
+    for f in groups:
+        f()
+    if rng.random() < 0.15:  # explicit anti-parallel arc next to the residual twin
+        net.arcs.append([w, u, rng.choice((0, 1, k))])
+
+
+def gen_reopen(rng):
+    net = _Net()
+    s, t = net.node(), net.node()
+    k = rng.choice(BIG_CAPS)
+    shape = rng.random()
+    _reopen_gadget(net, rng, s, t, k)
+    if shape < 0.15:  # a second gadget between the same terminals
+        _reopen_gadget(net, rng, s, t, rng.choice((k, 1)))
+    elif shape < 0.3:  # two gadgets in series
+        t2 = net.node()
+        _reopen_gadget(net, rng, t, t2, k)
+        t = t2
+    for _ in range(rng.choice((0, 0, 1, 2, 3))):  # noise arcs
+        x, y = rng.sample(range(net.n), 2)
+        net.arcs.append([x, y, rng.choice((0, 1, 2, 3))])
+    arcs = net.arcs
+    if rng.random() < 0.3:
+        rng.shuffle(arcs)
+    perm = list(range(net.n))
+    if rng.random() < 0.5:
+        rng.shuffle(perm)
+    arcs = [[perm[a], perm[b], c] for a, b, c in arcs]
+    return {"n": net.n, "arcs": arcs, "s": perm[s], "t": perm[t], "form": rng.choice((2, 2, 3)),
+            "labels": labels_for(rng.choice(("int", "int", "str", "tuple")), net.n, perm[s], perm[t])}
+
+
+def gen_paths(rng, n_target=None):
+    """Path system: several source-sink chains of different lengths plus crossing arcs between them (capacities mostly equal,
+    so that a crossing path saturates and later paths have to undo it)."""
+    net = _Net()
+    s, t = net.node(), net.node()
+    k = rng.choice((1, 1, 1, 2, 3))
+    cap = lambda: k if rng.random() < 0.85 else rng.randint(1, 2 * k)  # noqa
+    chains = []
+    if n_target is None:
+        for _ in range(rng.randint(2, 5)):
+            chains.append([s] + net.chain(s, t, rng.choice((0, 1, 1, 2, 2, 3, 4, 5, 6)), cap) + [t])
+    else:
+        while net.n < n_target:
+            chains.append([s] + net.chain(s, t, rng.randint(1, max(2, min(40, n_target // 6))), cap) + [t])
+    inner = [x for ch in chains for x in ch[1:-1]]
+    ncross = rng.randint(1, 2 * len(chains)) if n_target is None else rng.randint(len(chains), 3 * len(chains))
+    for _ in range(ncross if len(inner) >= 2 else 0):
+        x, y = rng.sample(inner, 2)
+        net.arcs.append([x, y, cap()])
+    arcs = net.arcs
+    if rng.random() < 0.5:
+        rng.shuffle(arcs)
+    return {"n": net.n, "arcs": arcs, "s": s, "t": t, "form": 2,
+            "labels": labels_for(rng.choice(("int", "str")), net.n, s, t)}
+
+
+LADDER_STYLES = ("layered", "bipartite", "sparse", "paths")
+
+
+def gen_ladder(rng, n, style):
+    """Networks of about n nodes.  layered: sqrt(n) layers, 2-3 arcs per node to the next layer plus skip/back arcs;
+    bipartite: unit-capacity matching network with hub source and sink; sparse: 3n random arcs; paths: path system."""
+    if style == "paths":
+        c = gen_paths(rng, n)
+        c["gen"] = ["paths", n]
+        return c
+    arcs = []
+    s, t = 0, n - 1
+    if style == "layered":
+        L = max(2, int(round((n - 2) ** 0.5)))
+        inner = list(range(1, n - 1))
+        layers = [[s]] + [inner[i::L] for i in range(L)] + [[t]]
+        layers = [l for l in layers if l]
+        cmax = rng.choice((1, 2, 3))
+        for a, b in zip(layers, layers[1:]):
+            for u in a:
+                for v in rng.sample(b, min(len(b), rng.randint(2, 3))):
+                    arcs.append([u, v, rng.randint(1, cmax)])
+            for v in b:  # every node can be entered
+                if rng.random() < 0.5:
+                    arcs.append([rng.choice(a), v, rng.randint(1, cmax)])
+        for i, a in enumerate(layers):
+            for u in a:
+                r = rng.random()
+                if r < 0.1 and i + 2 < len(layers):
+                    arcs.append([u, rng.choice(layers[i + 2]), rng.randint(1, cmax)])
+                elif r < 0.2 and i >= 2:
+                    arcs.append([u, rng.choice(layers[i - 1]), rng.choice((0, 1, cmax))])
+    elif style == "bipartite":
+        k = (n - 2) // 2
+        left = list(range(1, 1 + k))
+        right = list(range(1 + k, 1 + 2 * k))
+        for u in left:
+            arcs.append([s, u, 1])
+        for u in left:
+            for v in rng.sample(right, min(k, rng.randint(1, 3))):
+                arcs.append([u, v, 1])
+        for v in right:
+            arcs.append([v, t, 1])
+    else:
+        for _ in range(3 * n):
+            u = rng.randrange(n)
+            v = rng.randrange(n)
+            if u != v:
+                arcs.append([u, v, rng.choice((0, 1, 1, 2, 3))])
+        for _ in range(3):
+            arcs.append([s, rng.randrange(1, n), rng.randint(1, 3)])
+            arcs.append([rng.randrange(0, n - 1), t, rng.randint(1, 3)])
+    if rng.random() < 0.5:
+        rng.shuffle(arcs)
+    return {"n": n, "arcs": arcs, "s": s, "t": t, "form": 2, "gen": [style, n],
+            "labels": labels_for(rng.choice(("int", "str", "tuple")), n, s, t)}
+
+
+def gen_history(rng):
+    """A small network and 2..5 max_flow calls on the same dict object with in-place edits between the calls."""
+    r = rng.random()
+    base = gen_layered(rng) if r < 0.45 else gen_random(rng, 7) if r < 0.9 else gen_reopen(rng)
+    if base["form"] == 3:  # keep one tuple form per object; 3-tuples carry a cost that max_flow must ignore
+        base["form"] = 3
+    n = base["n"]
+    lab = base["labels"]
+    mirror = {}  # u -> list of [v, cap] in list order (what the dict holds)
+    order = []
+    for x in base.get("isolated", []):
+        if x not in mirror:
+            mirror[x] = []
+            order.append(x)
+    for u, v, c in base["arcs"]:
+        if u not in mirror:
+            mirror[u] = []
+            order.append(u)
+        mirror[u].append([v, c])
+    s, t = base["s"], base["t"]
+    steps = [{"edits": [], "s": s, "t": t}]
+    for _ in range(rng.randint(1, 4)):
+        edits = []
+        kind = rng.random()
+        tails = [u for u in mirror if mirror[u]]
+        if kind < 0.12 or not tails:
+            pass  # the same call again
+        elif kind < 0.2:  # other terminals, object untouched
+            s, t = rng.sample(range(n), 2)
+        else:
+            for _ in range(rng.choice((1, 1, 1, 2, 3))):
+                tails = [u for u in mirror if mirror[u]]
+                if not tails:
+                    break
+                op = rng.random()
+                u = rng.choice(tails)
+                i = rng.randrange(len(mirror[u]))
+                if op < 0.45:  # new capacity on an existing arc (widen, narrow, close, open)
+                    old = mirror[u][i][1]
+                    c = rng.choice([x for x in (0, 1, 2, 3, old + 1, old + 2, max(old - 1, 0), 5) if x != old])
+                    mirror[u][i][1] = c
+                    edits.append(["cap", u, i, c])
+                elif op < 0.6:  # swap the capacities of two arcs: arc count and capacity total unchanged
+                    u2 = rng.choice(tails)
+                    j = rng.randrange(len(mirror[u2]))
+                    ci, cj = mirror[u][i][1], mirror[u2][j][1]
+                    mirror[u][i][1], mirror[u2][j][1] = cj, ci
+                    edits += [["cap", u, i, cj], ["cap", u2, j, ci]]
+                elif op < 0.72:
+                    x, y = rng.sample(range(n), 2)
+                    c = rng.choice((1, 1, 2, 3))
+                    if x not in mirror:
+                        mirror[x] = []
+                    mirror[x].append([y, c])
+                    edits.append(["add", x, y, c, base["form"]])
+                elif op < 0.82:
+                    del mirror[u][i]
+                    edits.append(["del", u, i])
+                elif op < 0.9:  # delete one arc and add another: counts unchanged
+                    del mirror[u][i]
+                    edits.append(["del", u, i])
+                    x, y = rng.sample(range(n), 2)
+                    c = rng.choice((1, 2, 3))
+                    if x not in mirror:
+                        mirror[x] = []
+                    mirror[x].append([y, c])
+                    edits.append(["add", x, y, c, base["form"]])
+                elif op < 0.95:
+                    mirror[u].append(mirror[u].pop(0))
+                    edits.append(["rot", u])
+                else:
+                    mirror[u] = mirror.pop(u)
+                    edits.append(["rekey", u])
+        steps.append({"edits": edits, "s": s, "t": t})
+    return {"kind": "history", "n": n, "arcs": base["arcs"], "labels": lab, "form": base["form"],
+            "isolated": base.get("isolated", []), "s": base["s"], "t": base["t"], "steps": steps}
+
+
 def w_seeded(job):
     kind, seed, count, nmax = job
     rng = random.Random(seed)
-    cases = [gen_layered(rng) if kind == "layered" else gen_random(rng, nmax) for _ in range(count)]
-    return run_cases(cases)
+    lasts = None
+    if kind == "layered":
+        cases = [gen_layered(rng) for _ in range(count)]
+    elif kind == "random":
+        cases = [gen_random(rng, nmax) for _ in range(count)]
+    elif kind == "reopen":
+        cases = [gen_reopen(rng) for _ in range(count)]
+    elif kind == "paths":
+        cases = [gen_paths(rng) for _ in range(count)]
+    elif kind == "history":
+        cases = [gen_history(rng) for _ in range(count)]
+        lasts = []
+    elif kind.startswith("ladder:"):
+        cases = [gen_ladder(rng, nmax, kind.split(":")[1]) for _ in range(count)]
+    else:
+        raise ValueError(kind)
+    r = run_cases(cases, lasts)
+    if lasts is not None:
+        keep = lasts[:: max(1, len(lasts) // 12)][:12]  # a sample of every job goes to the fresh-process comparison
+        return r + (keep,)
+    return r
 
 
 def w_list(cases):
@@ -297,9 +683,13 @@ def w_list(cases):
 
 # ------------------------------------------------------------------------------------------------------ run
 def _merge(ctx, results, tally):
-    for n_eval, keys, viol, nrev, touts, per_ob in results:
+    for r in results:
+        n_eval, keys, viol, (nrev, nreo, ncalls), touts, per_ob = r[:6]
+        tally["lasts"] += r[6] if len(r) > 6 else []
         tally["eval"] += n_eval
         tally["rev"] += nrev
+        tally["reo"] += nreo
+        tally["calls"] += ncalls
         ctx.count(n_eval, keys)
         for ob, c in per_ob.items():
             tally["fails"][ob] = tally["fails"].get(ob, 0) + c
@@ -310,7 +700,8 @@ def _merge(ctx, results, tally):
 
 
 def _size(case):
-    return (case["n"], len(case["arcs"]), sum(a[2] for a in case["arcs"]))
+    return (case["n"], len(case["arcs"]) + sum(len(st["edits"]) + 1 for st in case.get("steps", [])),
+            sum(a[2] for a in case["arcs"]))
 
 
 def run(ctx: Ctx):
@@ -319,13 +710,17 @@ def run(ctx: Ctx):
     import oracles.flow_exact  # noqa
     rng = random.Random(ctx.seed)
     notes = {}
+    lasts_all = []
 
     def scope_run(name, results, **desc):
-        tally = {"eval": 0, "rev": 0, "fails": {}, "viol": []}
+        tally = {"eval": 0, "rev": 0, "reo": 0, "calls": 0, "fails": {}, "viol": [], "lasts": []}
         _merge(ctx, results, tally)
-        ctx.scope(name, evaluations=tally["eval"], needed_reverse_arc_in_reference_run=tally["rev"],
+        ctx.scope(name, evaluations=tally["eval"], max_flow_calls=tally["calls"],
+                  needed_reverse_arc_in_reference_run=tally["rev"],
+                  saturated_then_cancelled_then_reused_arc_in_reference_run=tally["reo"],
                   failing_by_obligation=tally["fails"], **desc)
         notes[name] = {"evaluations": tally["eval"], "failing_by_obligation": tally["fails"]}
+        lasts_all.extend(tally["lasts"])
         # report the smallest failing cases first
         tally["viol"].sort(key=lambda v: _size(v[1]))
         seen = {}
@@ -373,30 +768,104 @@ def run(ctx: Ctx):
               features="parallel, anti-parallel, into-source, out-of-sink, unreachable parts, zero and huge capacities, "
                        "isolated keys, 6 label schemes, 2- and 3-tuples")
 
+    # 5. round 2 - re-open gadgets and path systems: saturate an arc, cancel it over the twin, need it again
+    nj = 64 if ctx.quick else 1600
+    jobs = [("reopen", rng.randrange(1 << 60), per, 0) for _ in range(nj)]
+    scope_run("re-open gadgets (targeted, seeded)", pmap(w_seeded, jobs), runs=nj * per, nodes="6..40",
+              structure="contested arc u->w; short route s~u->w~t, by-passes s~w and u~t (0..3 inner nodes), detours s~u and "
+                        "w~t (by-pass length + 0..4); 1-2 gadgets in parallel or series; noise arcs; shuffled orders and ids",
+              capacities="k (80%), 2k, k+1 with k in {1,2,3,7,2^53+1}; noise 0..3")
+    nj = 64 if ctx.quick else 1600
+    jobs = [("paths", rng.randrange(1 << 60), per, 0) for _ in range(nj)]
+    scope_run("path systems with crossing arcs (seeded)", pmap(w_seeded, jobs), runs=nj * per, nodes="2..32",
+              structure="2..5 source-sink chains with 0..6 inner nodes, 1..2*chains crossing arcs between inner nodes",
+              capacities="k (85%) or 1..2k, k in {1,2,3}")
+
+    # 6. round 2 - size ladder; verdict from the certificate on the returned flow + reference Edmonds-Karp (no brute force)
+    if ctx.quick:
+        ladder = [(10, 40), (11, 40), (12, 40), (33, 24), (65, 16), (129, 8), (140, 8), (260, 4), (520, 2)]
+    else:
+        ladder = [(10, 400), (11, 400), (12, 400), (33, 300), (65, 200), (129, 120), (130, 120), (140, 120), (260, 60),
+                  (520, 40), (600, 40), (1040, 16), (2100, 8)]
+    jobs = []
+    for n, reps in ladder:
+        for style in LADDER_STYLES:
+            per_job = max(1, min(reps, 2000 // n))
+            for _ in range(max(1, reps // per_job)):
+                jobs.append(("ladder:" + style, rng.randrange(1 << 60), per_job, n))
+    jobs.sort(key=lambda j: -j[3] * j[2])
+    scope_run("size ladder (certifying oracle)", pmap(w_seeded, jobs, chunksize=1),
+              sizes={str(n): reps * len(LADDER_STYLES) for n, reps in ladder}, styles=list(LADDER_STYLES),
+              arcs="about 3n (bipartite: unit capacities, hub source and sink; others capacities 0..3)",
+              oracle="returned flow checked directly: capacity, conservation, objective, no augmenting path in its residual "
+                     "network; value compared with the reference Edmonds-Karp, which asserts its own saturated cut")
+
+    # 7. round 2 - history mode: one dict object, in-place edits between calls, every call judged on its own
+    nj = 64 if ctx.quick else 1200
+    jobs = [("history", rng.randrange(1 << 60), per, 0) for _ in range(nj)]
+    scope_run("history mode: same graph object, in-place edits between calls (seeded)", pmap(w_seeded, jobs),
+              sequences=nj * per, calls_per_sequence="2..5",
+              edits="capacity replaced in place (widen/narrow/close/open), capacities of two arcs swapped (counts and total "
+                    "unchanged), arc added, arc deleted, delete+add, list rotated, key re-inserted; same call repeated; other "
+                    "source/sink on the untouched object", base="layered / random digraphs (<= 14 nodes) and re-open gadgets")
+    fresh = fresh_process([l for _c, l in lasts_all])
+    n_diff = 0
+    for (case, last), got in zip(lasts_all, fresh):
+        if got != json.loads(json.dumps(last["result"])):
+            n_diff += 1
+            if n_diff <= 2:
+                ctx.violation(P + "frame:result-independent-of-call-history", case,
+                              f"last call of the sequence returned {str(last['result'])[:200]}; a fresh interpreter on an equal, newly "
+                              f"built dict returns {str(got)[:200]}")
+    ctx.count(len(fresh), ())
+    ctx.scope("history mode: last call of a sequence vs. fresh process", evaluations=len(fresh), differing=n_diff,
+              how="`python -m checks.C08 --fresh`: new interpreter, equal dict built from scratch (same key and list order), "
+                  "one max_flow call; objective and flow dictionary must be identical")
+
     ctx.exhaustive = True
     ctx.notes["scope_results"] = notes
     sample_rng = random.Random(ctx.seed + 1)
-    ctx.count(0, (), [t6[5], gen_layered(sample_rng), gen_random(sample_rng, 7)])
+    ctx.count(0, (), [t6[5], gen_layered(sample_rng), gen_random(sample_rng, 7), gen_reopen(sample_rng),
+                      gen_history(sample_rng)])
     ctx.rule = ("every case = (graph dict in a fixed insertion order, source, sink); max_flow is called once and its Result "
-                "checked against the five ensures clauses with the exact minimum cut as oracle. non-trivial = minimum cut "
-                ">= 1 (flow has to be routed); distinct = different (node count, source, sink, ordered arc list, labels, "
-                "tuple form). Per scope the evidence also counts the cases in which the reference Edmonds-Karp had to "
-                "traverse a residual twin (maximum unreachable by forward arcs only in that BFS order).")
+                "checked against the five ensures clauses with the exact minimum cut as oracle. A history case = one graph "
+                "dict + a list of steps (in-place edits, source, sink); max_flow is called after every step on the same object "
+                "and judged against the arcs the dict holds at that moment. non-trivial = minimum cut >= 1 at some call "
+                "(flow has to be routed); distinct = different (node count, source, sink, ordered arc list, labels, "
+                "tuple form, steps). Per scope the evidence also counts the cases in which the reference Edmonds-Karp had to "
+                "traverse a residual twin (maximum unreachable by forward arcs only in that BFS order) and those in which "
+                "it saturated an arc, cancelled flow on it and pushed over it again. Size-ladder cases (10..2100 nodes) are "
+                "decided by certificate, not by enumeration.")
     ctx.assumptions += [
         "domain: source != sink (a source-sink cut must exist); capacities are Python ints >= 0",
         "node labels are hashable and pairwise different (int, str, tuple, negative, falsy labels tried)",
         "max-flow/min-cut weak duality (a feasible flow of value v and a cut of capacity v prove each other optimal)",
     ]
+    ctx.assumptions += [
+        "history mode: the caller edits the dict and its lists in place between calls (tuples replaced, appended, deleted, "
+        "rotated; keys re-inserted); each call is an input inside the quantifier and is judged on its own",
+        f"size ladder: a call that needs more than {LADDER_TIMEOUT_S:.0f} CPU-seconds is recorded as undecided, not judged",
+    ]
     ctx.trusted += ["oracles/flow_exact.py: edmonds_karp (self-certifying: asserts its own saturated cut), "
-                    "min_cut_brute (n <= 8 cross-check), st_flow_defects"]
+                    "min_cut_brute (n <= 8 cross-check), st_flow_defects (residual reachability on the returned flow)"]
 
 
 def replay(rec):
     use_repo()
     case = rec["case"]
+    if rec.get("obligation", "").endswith("frame:result-independent-of-call-history"):
+        _o, _i, last = eval_history(case, want_last=True)
+        got = fresh_process([last])[0]
+        print("in-process, last call of the sequence:", last["result"])
+        print("fresh process, equal dict           :", got)
+        return 1 if got != json.loads(json.dumps(last["result"])) else 0
     out, info = eval_case(case)
     g, lab = build_graph(case)
-    print("graph:", g, "source:", lab[case["s"]], "sink:", lab[case["t"]])
+    if case["n"] <= 40:
+        print("graph:" if case.get("kind") != "history" else "initial graph:", g, "source:", lab[case["s"]], "sink:",
+              lab[case["t"]])
+    for k, st in enumerate(case.get("steps", [])):
+        print(f"  call #{k + 1}: edits {st['edits']} then max_flow(g, {lab[st['s']]!r}, {lab[st['t']]!r})")
     print("oracle max flow:", info["value"])
     if info.get("timeout"):
         print("replay: no result within", TIMEOUT_S, "s")
@@ -406,3 +875,9 @@ def replay(rec):
     if not out:
         print("replay: no violation")
     return 1 if out else 0
+
+
+if __name__ == "__main__":
+    if sys.argv[1:] == ["--fresh"]:
+        use_repo()
+        print(json.dumps([fresh_eval(it) for it in json.load(sys.stdin)]))
